@@ -151,14 +151,22 @@ func hostileBuf(r *RNG) []byte {
 	return r.Bytes(r.Intn(13))
 }
 
-func runUnmarshalSeq(pkt bool, bufs [][]byte) Outcome {
-	var o Outcome
+func runUnmarshalSeq(pkt bool, bufs [][]byte) (o Outcome) {
 	var p rtp.Packet
 	var h rtp.Header
 	results := VList{}
 	afterReject := false
+	var earlier []*guarded // the caller's buffers of the earlier steps: decoding a later input must not write into them
+	defer func() {
+		for k, g := range earlier {
+			if !g.intact(bufs[k]) && o.Fail == "" {
+				o.Fail = fmt.Sprintf("the input buffer of step %d was written to by a later step", k)
+			}
+		}
+	}()
 	for step, in := range bufs {
 		g, buf := newGuarded(in)
+		earlier = append(earlier, g)
 		var err error
 		var n int
 		pn, what := catch(func() {
